@@ -1,0 +1,19 @@
+//go:build verif
+
+// Verification hook (add-only, compiled only with -tags verif): re-exports the
+// unexported checkStore so that the /verif C12 harness can read the checker's
+// verdict (status code) directly instead of inferring it from the rule trace.
+
+package checker
+
+import (
+	"github.com/projectcalico/calico/app-policy/policystore"
+	"github.com/projectcalico/calico/felix/proto"
+	"github.com/projectcalico/calico/felix/rules"
+)
+
+// VerifCheckStore = checkStore(scope, store, ep, dir, flow).Code
+func VerifCheckStore(scope PolicyScope, store *policystore.PolicyStore, ep *proto.WorkloadEndpoint, dir rules.RuleDir, flow Flow) int32 {
+	s := checkStore(scope, store, ep, dir, flow)
+	return s.Code
+}
